@@ -928,6 +928,11 @@ class Message:
             # parse unencrypted payloads
             message.payloads = cls._parse_payloads(data[28:], Payload.Type(header[2]))
 
+            # once keys exist, everything but IKE_SA_INIT must come inside a Payload SK
+            if (crypto is not None and message.exchange_type != Message.Exchange.IKE_SA_INIT
+                    and not (message.payloads and message.payloads[-1].type == Payload.Type.SK)):
+                raise InvalidSyntax('Message is not protected by an encrypted payload')
+
             # if there is a Payload SK
             if message.payloads and message.payloads[-1].type == Payload.Type.SK and crypto is not None:
                 # read the payload SK and remove it from the list
